@@ -21,7 +21,11 @@ structure Sess where
   szit  : Option (Nat × Nat × ZipCursor Elem) := none
   sparse : Bool := false      -- obs=sparse session: content is printed by `observe` only
   force  : Bool := false      -- the current op is `observe`
+  quiet  : Bool := false      -- phys=quiet session: buffers as FNV-1a 64 checksums except on `observe`
+  modelOff : Bool := false    -- model=off session (MiB-sized buffers): the driver answers `S ?` / `M ?`
   tieSlot : Option Nat := none   -- slot printed tie-invariantly by the current op (`sort cmp=k10`)
+  spos  : Nat × Bool := (0, false)      -- ideal position / removed flag of the single iterator
+  szpos : Nat × Bool := (0, false)      -- … of the zip iterator over two arrays
   zsame : Nat × Bool := (0, false)      -- ideal cursor of a zip iterator with the same array on both sides
 
 def getSlot {β : Type} (l : List (Option β)) (k : Nat) : Option β := (l[k]?).getD none
@@ -33,11 +37,18 @@ def dec (c : Elem) : Nat := c.foldr (fun b acc => b + 256 * acc) 0
 def hexDigit (n : Nat) : Char := if n < 10 then Char.ofNat (48 + n) else Char.ofNat (87 + n)
 def hex (bs : List Nat) : String :=
   if bs.isEmpty then "-" else String.ofList (bs.flatMap fun b => [hexDigit (b / 16 % 16), hexDigit (b % 16)])
-def fmtElems (xs : List Elem) : String := "[" ++ ",".intercalate (xs.map fun c => toString (dec c)) ++ "]"
+def fnv64 (bs : List Nat) : UInt64 :=
+  bs.foldl (fun h b => (h ^^^ b.toUInt64) * 0x100000001b3) 0xcbf29ce484222325
+def hex16 (h : UInt64) : String :=
+  String.ofList ((List.range 16).map fun i => hexDigit ((h >>> ((15 - i) * 4).toUInt64).toNat % 16))
+/-- text of one element: its decimal value up to 64 bytes; beyond, the low 8 bytes and a checksum -/
+def elemText (c : Elem) : String :=
+  if c.length ≤ 64 then toString (dec c) else s!"{dec (c.take 8)}:{hex16 (fnv64 c)}"
+def fmtElems (xs : List Elem) : String := "[" ++ ",".intercalate (xs.map elemText) ++ "]"
 def fmtCb (xs : List (Elem × Option Elem)) (pairs : Bool) : String :=
   let item (p : Elem × Option Elem) : List String :=
-    if pairs then [toString (dec p.1), match p.2 with | some b => toString (dec b) | none => "N"]
-    else [toString (dec p.1)]
+    if pairs then [elemText p.1, match p.2 with | some b => elemText b | none => "N"]
+    else [elemText p.1]
   "[" ++ ",".intercalate (xs.flatMap item) ++ "]"
 
 /-! ### callbacks (the same fixed functions as in the shim) -/
@@ -76,11 +87,11 @@ def exGeOf (ex : Float32) (n : Nat) : Bool := ex ≥ Float32.ofNat n
 /-! ### observation -/
 def obsSlotM (k : Nat) (a : ArraySized) : String :=
   let m : Mem := {}
-  let items := (List.range a.size).map fun i => match (a.getAt i m).2.1 with | some c => toString (dec c) | none => "?"
-  let last := match (a.getLast m).2.1 with | some c => toString (dec c) | none => "-"
+  let items := (List.range a.size).map fun i => match (a.getAt i m).2.1 with | some c => elemText c | none => "?"
+  let last := match (a.getLast m).2.1 with | some c => elemText c | none => "-"
   s!" a{k}=[{",".intercalate items}] n{k}={a.size} l{k}={last}"
 def obsSlotS (k : Nat) (xs : List Elem) : String :=
-  let last := match xs.getLast? with | some c => toString (dec c) | none => "-"
+  let last := match xs.getLast? with | some c => elemText c | none => "-"
   s!" a{k}={fmtElems xs} n{k}={xs.length} l{k}={last}"
 /-- tie-invariant print: keys (v % 10) in array order, then the records as a sorted multiset -/
 def obsTie (k : Nat) (xs : List Elem) : String :=
@@ -95,12 +106,15 @@ def obsS (s : Sess) : String :=
   String.join ((List.range NSLOT).map fun k => match getSlot s.spec k with
     | some xs => if s.tieSlot == some k then obsTie k xs else obsSlotS k xs
     | none => "")
-def physSlot (k : Nat) (a : ArraySized) : String :=
+def physSlot (quiet full : Bool) (k : Nat) (a : ArraySized) : String :=
   let nb := (if a.triple == .libc then a.size else a.capacity) * a.dataLen
-  s!"dl{k}={a.dataLen} size{k}={a.size} cap{k}={a.capacity} buf{k}={hex (a.buf.take nb)}"
+  let showFull := !quiet || full
+  let txt := if showFull && nb ≤ 2 ^ 18 then hex (a.buf.take nb)
+    else if nb ≤ (if full then 2 ^ 24 else 2 ^ 20) then "sum" ++ hex16 (fnv64 (a.buf.take nb)) else "sum-"
+  s!"dl{k}={a.dataLen} size{k}={a.size} cap{k}={a.capacity} buf{k}={txt}"
 def b01 (b : Bool) : String := if b then "1" else "0"
 def phys (s : Sess) : String :=
-  let parts := (List.range NSLOT).filterMap fun k => (getSlot s.model k).map (physSlot k)
+  let parts := (List.range NSLOT).filterMap fun k => (getSlot s.model k).map (physSlot s.quiet s.force k)
   if parts.isEmpty then "-" else
   " ".intercalate parts ++
   (match s.it with | some (k, it) => s!" it={k},{it.index},{b01 it.lastRemoved}" | none => "") ++
@@ -118,7 +132,7 @@ def hdr (st : Option Stat) (out : Option String := none) (out2 : Option String :
   (match out with | some v => s!" out={v}" | none => "") ++
   (match out2 with | some v => s!" out2={v}" | none => "") ++
   (match cb with | some v => s!" cb={v}" | none => "")
-def elemStr (o : Option Elem) : Option String := o.map fun c => toString (dec c)
+def elemStr (o : Option Elem) : Option String := o.map fun c => elemText c
 def okOut (st : Stat) (o : Option String) : Option String := if st = .ok then o else none
 
 def anyObj (s : Sess) : Bool := s.model.any Option.isSome
@@ -159,7 +173,10 @@ def noSession (s : Sess) (m : Mem) : Sess × String × String :=
 
 /-- returns the new session, the spec line and the model line -/
 def step (s0 : Sess) (c : Cmd) : Sess × String × String :=
+  let isNew := c.op == "new" || c.op == "new_default"
+  if s0.modelOff || (isNew && c.str "model" == some "off") then ({ s0 with modelOff := true }, "S ?", "M ?") else
   let s : Sess := { s0 with force := c.op == "observe",
+                            quiet := s0.quiet || (isNew && c.str "phys" == some "quiet"),
                             tieSlot := if c.op == "sort" && c.str "cmp" == some "k10" then some (slotOf c "o" 0) else none,
                             sparse := s0.sparse || ((c.op == "new" || c.op == "new_default") && c.str "obs" == some "sparse") }
   let m := s.mem.begin c.sched
@@ -170,7 +187,7 @@ def step (s0 : Sess) (c : Cmd) : Sess × String × String :=
   | "new" | "new_default" =>
     let isDef := c.op == "new_default"
     let dl := c.nat "esize" 1
-    if (getSlot s.model k).isSome || dl > 64 then simple { s with mem := m } "st=- badslot" else
+    if (getSlot s.model k).isSome || dl > 65536 then simple { s with mem := m } "st=- badslot" else
     let cap := if isDef then Gen.SIZED_DEFAULT_CAPACITY else c.nat "cap" Gen.SIZED_DEFAULT_CAPACITY
     let ex := if isDef then Float32.ofScientific Gen.SIZED_DEFAULT_EXPANSION_FACTOR_MILLI true 3 else effFactor c
     /- the harness allocator refuses any request above 2^40 bytes ("absurd", reported as
@@ -208,7 +225,7 @@ def step (s0 : Sess) (c : Cmd) : Sess × String × String :=
           let z := enc a.dataLen 0
           let (pos, rem) := s.zsame
           let pr (o : Option (Elem × Elem)) (st : Stat) : Option String × Option String :=
-            if st = .ok && c.nat "noout" 0 == 0 then (o.map fun p => toString (dec p.1), o.map fun p => toString (dec p.2)) else (none, none)
+            if st = .ok && c.nat "noout" 0 == 0 then (o.map fun p => elemText p.1, o.map fun p => elemText p.2) else (none, none)
           let fin (it : ArraySized.Iter) (a : ArraySized) (m : Mem) (xs : List Elem) (zs : Nat × Bool) (hS hM : String) :=
             lines hS hM { s with model := setSlot s.model k1 (some a), spec := setSlot s.spec k1 (some xs),
                                  mem := m, zit := some (k1, k2, it), zsame := zs }
@@ -222,7 +239,7 @@ def step (s0 : Sess) (c : Cmd) : Sess × String × String :=
             let r := ArraySized.zipAddSame it a e1 e2 m
             let (sst, xs', pos') := match refusal with
               | some st => (st, xs, pos)
-              | none => let q := Spec.SSeq.Same.add xs pos e1 e2; (Stat.ok, q.1, q.2)
+              | none => Spec.SSeq.Same.add xs pos e1 e2
             fin r.2.1 r.2.2.1 r.2.2.2 xs' (pos', rem) (hdr (some sst)) (hdr (some r.1))
           | "zit_remove" =>
             let r := ArraySized.zipRemoveSame it a m
@@ -238,37 +255,42 @@ def step (s0 : Sess) (c : Cmd) : Sess × String × String :=
             fin it a m xs (pos, rem) (hdr none (some (toString (Spec.SSeq.wdec pos))))
               (hdr none (some (toString (ArraySized.iterIndex it))))
         else
-        let cur := rebaseZ cur0 xs ys
+        let _ := cur0
+        let (pos, rem) := s.szpos
         let e1 := enc a1.dataLen (c.arg 0)
         let e2 := enc a2.dataLen (c.arg 1)
+        let z1 := enc a1.dataLen 0
         let pr (o : Option (Elem × Elem)) (st : Stat) : Option String × Option String :=
-          if st = .ok && c.nat "noout" 0 == 0 then (o.map fun p => toString (dec p.1), o.map fun p => toString (dec p.2)) else (none, none)
-        let fin (it : ArraySized.Iter) (a1 a2 : ArraySized) (m : Mem) (cur : ZipCursor Elem) (hS hM : String) :=
+          if st = .ok && c.nat "noout" 0 == 0 then (o.map fun p => elemText p.1, o.map fun p => elemText p.2) else (none, none)
+        let fin (it : ArraySized.Iter) (a1 a2 : ArraySized) (m : Mem) (xs ys : List Elem) (zp : Nat × Bool) (hS hM : String) :=
           lines hS hM { s with model := setSlot (setSlot s.model k1 (some a1)) k2 (some a2),
-                               spec := setSlot (setSlot s.spec k1 (some cur.content1)) k2 (some cur.content2),
-                               mem := m, zit := some (k1, k2, it), szit := some (k1, k2, cur) }
+                               spec := setSlot (setSlot s.spec k1 (some xs)) k2 (some ys),
+                               mem := m, zit := some (k1, k2, it), szpos := zp }
         match c.op with
         | "zit_next" =>
           let r := ArraySized.zipNext it a1 a2 m
-          let sr := cur.next
-          fin r.2.2.1 a1 a2 r.2.2.2 sr.2.2 (hdr (some sr.1) (pr sr.2.1 sr.1).1 (pr sr.2.1 sr.1).2)
-            (hdr (some r.1) (pr r.2.1 r.1).1 (pr r.2.1 r.1).2)
+          let sr := Spec.SSeq.Pos.znext xs ys pos
+          fin r.2.2.1 a1 a2 r.2.2.2 xs ys (sr.2.2, if sr.1 = .ok then false else rem)
+            (hdr (some sr.1) (pr sr.2.1 sr.1).1 (pr sr.2.1 sr.1).2) (hdr (some r.1) (pr r.2.1 r.1).1 (pr r.2.1 r.1).2)
         | "zit_add" =>
           let r := ArraySized.zipAdd it a1 a2 e1 e2 m
-          let (sst, cur') := match refusal with | some st => (st, cur) | none => (Stat.ok, cur.add e1 e2)
-          fin r.2.1 r.2.2.1 r.2.2.2.1 r.2.2.2.2 cur' (hdr (some sst)) (hdr (some r.1))
+          let (sst, xs', ys', pos') := match refusal with
+            | some st => (st, xs, ys, pos)
+            | none => Spec.SSeq.Pos.zadd xs ys pos e1 e2
+          fin r.2.1 r.2.2.1 r.2.2.2.1 r.2.2.2.2 xs' ys' (pos', rem) (hdr (some sst)) (hdr (some r.1))
         | "zit_remove" =>
           let r := ArraySized.zipRemove it a1 a2 m
-          let sr := cur.remove
-          fin r.2.2.1 r.2.2.2.1 r.2.2.2.2.1 r.2.2.2.2.2 sr.2.2 (hdr (some sr.1) (pr sr.2.1 sr.1).1 (pr sr.2.1 sr.1).2)
-            (hdr (some r.1) (pr r.2.1 r.1).1 (pr r.2.1 r.1).2)
+          let sr := Spec.SSeq.Pos.zremove z1 xs ys pos rem
+          fin r.2.2.1 r.2.2.2.1 r.2.2.2.2.1 r.2.2.2.2.2 sr.2.2.1 sr.2.2.2.1 (sr.2.2.2.2.1, sr.2.2.2.2.2)
+            (hdr (some sr.1) (pr sr.2.1 sr.1).1 (pr sr.2.1 sr.1).2) (hdr (some r.1) (pr r.2.1 r.1).1 (pr r.2.1 r.1).2)
         | "zit_replace" =>
           let r := ArraySized.zipReplace it a1 a2 e1 e2 m
-          let sr := cur.replace e1 e2
-          fin it r.2.2.1 r.2.2.2.1 r.2.2.2.2 sr.2.2 (hdr (some sr.1) (pr sr.2.1 sr.1).1 (pr sr.2.1 sr.1).2)
-            (hdr (some r.1) (pr r.2.1 r.1).1 (pr r.2.1 r.1).2)
+          let sr := Spec.SSeq.Pos.zreplace z1 xs ys pos e1 e2
+          fin it r.2.2.1 r.2.2.2.1 r.2.2.2.2 sr.2.2.1 sr.2.2.2 (pos, rem)
+            (hdr (some sr.1) (pr sr.2.1 sr.1).1 (pr sr.2.1 sr.1).2) (hdr (some r.1) (pr r.2.1 r.1).1 (pr r.2.1 r.1).2)
         | _ =>
-          fin it a1 a2 m cur (hdr none (some (toString cur.index))) (hdr none (some (toString (ArraySized.iterIndex it))))
+          fin it a1 a2 m xs ys (pos, rem) (hdr none (some (toString (Spec.SSeq.wdec pos))))
+            (hdr none (some (toString (ArraySized.iterIndex it))))
       | _, _, _, _ => simple s "st=- noiter"
     | _, _ => simple s "st=- noiter"
   | "it_next" | "it_remove" | "it_add" | "it_replace" | "it_index" =>
@@ -276,32 +298,37 @@ def step (s0 : Sess) (c : Cmd) : Sess × String × String :=
     | some (ki, it), some (_, cur0) =>
       match getSlot s.model ki, getSlot s.spec ki with
       | some a, some xs =>
-        let cur := rebase cur0 xs
+        let _ := cur0
+        let (pos, rem) := s.spos
         let e := enc a.dataLen (c.arg 0)
         let noout := c.nat "noout" 0 != 0
         let pr (o : Option Elem) (st : Stat) : Option String := if st = .ok && !noout then elemStr o else none
-        let fin (it : ArraySized.Iter) (a : ArraySized) (m : Mem) (cur : Cursor Elem) (hS hM : String) :=
-          lines hS hM { s with model := setSlot s.model ki (some a), spec := setSlot s.spec ki (some cur.content),
-                               mem := m, it := some (ki, it), sit := some (ki, cur) }
+        let fin (it : ArraySized.Iter) (a : ArraySized) (m : Mem) (xs : List Elem) (sp : Nat × Bool) (hS hM : String) :=
+          lines hS hM { s with model := setSlot s.model ki (some a), spec := setSlot s.spec ki (some xs),
+                               mem := m, it := some (ki, it), spos := sp }
         match c.op with
         | "it_next" =>
           let r := ArraySized.iterNext it a m
-          let sr := cur.next
-          fin r.2.2.1 a r.2.2.2 sr.2.2 (hdr (some sr.1) (okOut sr.1 (elemStr sr.2.1))) (hdr (some r.1) (okOut r.1 (elemStr r.2.1)))
+          let sr := Spec.SSeq.Pos.next xs pos
+          fin r.2.2.1 a r.2.2.2 xs (sr.2.2, if sr.1 = .ok then false else rem)
+            (hdr (some sr.1) (okOut sr.1 (elemStr sr.2.1))) (hdr (some r.1) (okOut r.1 (elemStr r.2.1)))
         | "it_remove" =>
           let r := ArraySized.iterRemove it a m
-          let sr := cur.remove
-          fin r.2.2.1 r.2.2.2.1 r.2.2.2.2 sr.2.2 (hdr (some sr.1) (pr sr.2.1 sr.1)) (hdr (some r.1) (pr r.2.1 r.1))
+          let sr := Spec.SSeq.Pos.remove xs pos rem
+          fin r.2.2.1 r.2.2.2.1 r.2.2.2.2 sr.2.2.1 (sr.2.2.2.1, sr.2.2.2.2) (hdr (some sr.1) (pr sr.2.1 sr.1)) (hdr (some r.1) (pr r.2.1 r.1))
         | "it_add" =>
           let r := ArraySized.iterAdd it a e m
-          let (sst, cur') := match limitRefusal a c.fired with | some st => (st, cur) | none => (Stat.ok, cur.add e)
-          fin r.2.1 r.2.2.1 r.2.2.2 cur' (hdr (some sst)) (hdr (some r.1))
+          let q := Spec.SSeq.Pos.add xs pos e
+          let (sst, xs', pos') := match limitRefusal a c.fired with
+            | some st => if q.1 = .ok then (st, xs, pos) else q
+            | none => q
+          fin r.2.1 r.2.2.1 r.2.2.2 xs' (pos', rem) (hdr (some sst)) (hdr (some r.1))
         | "it_replace" =>
           let r := ArraySized.iterReplace it a e m
-          let sr := cur.replace e
-          fin it r.2.2.1 r.2.2.2 sr.2.2 (hdr (some sr.1) (pr sr.2.1 sr.1)) (hdr (some r.1) (pr r.2.1 r.1))
+          let sr := Spec.SSeq.Pos.replace xs pos e
+          fin it r.2.2.1 r.2.2.2 sr.2.2 (pos, rem) (hdr (some sr.1) (pr sr.2.1 sr.1)) (hdr (some r.1) (pr r.2.1 r.1))
         | _ =>
-          fin it a m cur (hdr none (some (toString cur.index))) (hdr none (some (toString (ArraySized.iterIndex it))))
+          fin it a m xs (pos, rem) (hdr none (some (toString (Spec.SSeq.wdec pos)))) (hdr none (some (toString (ArraySized.iterIndex it))))
       | _, _ => simple s "st=- noiter"
     | _, _ => simple s "st=- noiter"
   | "zit_new" | "foreach_zip" =>
@@ -309,7 +336,7 @@ def step (s0 : Sess) (c : Cmd) : Sess × String × String :=
     match getSlot s.model k, getSlot s.model k2, getSlot s.spec k, getSlot s.spec k2 with
     | some a1, some a2, some xs, some ys =>
       if c.op == "zit_new" then
-        simple { s with zit := some (k, k2, {}), szit := some (k, k2, ZipCursor.start xs ys), zsame := (0, false) } "st=-"
+        simple { s with zit := some (k, k2, {}), szit := some (k, k2, ZipCursor.start xs ys), zsame := (0, false), szpos := (0, false) } "st=-"
       else
         let r := foreachZipM a1 a2 m
         let scb := (xs.zip ys).map fun p => (p.1, some p.2)
@@ -330,7 +357,7 @@ def step (s0 : Sess) (c : Cmd) : Sess × String × String :=
       let sr := Spec.SSeq.step xs op ref
       let h (o : Spec.SSeq.Out Elem) : String :=
         let okk := o.st = some .ok || o.st = none
-        hdr o.st (if okk && !noout then (match o.val with | some v => some (toString (dec v)) | none => o.num.map toString) else none)
+        hdr o.st (if okk && !noout then (match o.val with | some v => some (elemText v) | none => o.num.map toString) else none)
           none (if showCb then some (fmtCb o.cb pairs) else none)
       lines (h sr.1) (h r.1) (upd r.2.1 sr.2 r.2.2)
     match c.op with
@@ -360,7 +387,7 @@ def step (s0 : Sess) (c : Cmd) : Sess × String × String :=
       let r := foreachM a m
       lines (hdr none none none (some (fmtCb (xs.map (·, none)) false)))
         (hdr none none none (some (fmtCb (r.1.map (·, none)) false))) { s with mem := r.2 }
-    | "it_new" => simple { s with it := some (k, {}), sit := some (k, Cursor.start xs) } "st=-"
+    | "it_new" => simple { s with it := some (k, {}), sit := some (k, Cursor.start xs), spos := (0, false) } "st=-"
     | "mk_sub" | "mk_copy" | "mk_filter" =>
       let to := c.nat "to" 1
       if to ≥ NSLOT || (getSlot s.model to).isSome then simple s "st=- badslot" else
